@@ -352,7 +352,7 @@ func (r *Run) Finish() {
 	if r.assumptions == nil {
 		out["assumptions"] = []string{}
 	}
-	if r.replayPath == "" {
+	if r.replayPath == "" && os.Getenv("VERIF_NO_EVIDENCE") == "" {
 		b, _ := json.MarshalIndent(out, "", " ")
 		os.MkdirAll(filepath.Join(Root, "evidence"), 0o755)
 		if err := os.WriteFile(filepath.Join(Root, "evidence", r.ID+".json"), append(b, '\n'), 0o644); err != nil {
@@ -378,6 +378,9 @@ func (r *Run) Finish() {
 		b, _ := json.MarshalIndent(w, "", " ")
 		h := sha1.Sum(b)
 		dir := filepath.Join(Root, "replays", r.ID)
+		if d := os.Getenv("VERIF_REPLAY_DIR"); d != "" {
+			dir = d
+		}
 		os.MkdirAll(dir, 0o755)
 		p := filepath.Join(dir, hex.EncodeToString(h[:6])+".json")
 		os.WriteFile(p, append(b, '\n'), 0o644)
